@@ -611,18 +611,24 @@ func readAllScripted(body io.Reader, sizes []int) ([]byte, error) {
 	}
 }
 
-func (rn *run) observeFrames(form, codec, enc string, desc protoreflect.MessageDescriptor, raw []byte, flagMask byte) ([]frameObs, int) {
+func (rn *run) observeFrames(form, codec, enc string, desc protoreflect.MessageDescriptor, raw []byte, flagMask byte, hints []frameSpec) ([]frameObs, int) {
+	hint := func(i int) int {
+		if i < len(hints) {
+			return hints[i].M
+		}
+		return 0
+	}
 	obs := []frameObs{}
 	if !formEnveloped(form) {
 		if len(raw) == 0 {
 			return obs, 0
 		}
 		fo := frameObs{Flags: -1, Decl: len(raw), Actual: len(raw), DeclZ: enc != "", Form: byteForm(raw)}
-		fo.ID = rn.identifyPayload(codec, enc, fo.DeclZ, desc, raw)
+		fo.ID = rn.identifyPayload(codec, enc, fo.DeclZ, desc, raw, hint(0))
 		return append(obs, fo), 0
 	}
 	frames, rest := splitFrames(raw)
-	for _, f := range frames {
+	for i, f := range frames {
 		fo := frameObs{Flags: int(f.Flags), Decl: int(f.Decl), Actual: len(f.Payload), DeclZ: f.Flags&1 != 0 && enc != "", Form: byteForm(f.Payload)}
 		switch {
 		case !f.Whole:
@@ -630,14 +636,14 @@ func (rn *run) observeFrames(form, codec, enc string, desc protoreflect.MessageD
 		case f.Flags&flagMask != 0:
 			fo.ID = -4 // end-of-stream frame, not a message
 		default:
-			fo.ID = rn.identifyPayload(codec, enc, f.Flags&1 != 0, desc, f.Payload)
+			fo.ID = rn.identifyPayload(codec, enc, f.Flags&1 != 0, desc, f.Payload, hint(i))
 		}
 		obs = append(obs, fo)
 	}
 	return obs, len(rest)
 }
 
-func (rn *run) identifyPayload(codec, enc string, compressed bool, desc protoreflect.MessageDescriptor, p []byte) int {
+func (rn *run) identifyPayload(codec, enc string, compressed bool, desc protoreflect.MessageDescriptor, p []byte, hint int) int {
 	if compressed {
 		if enc == "" {
 			return -2 // flagged compressed but no algorithm declared
@@ -653,7 +659,7 @@ func (rn *run) identifyPayload(codec, enc string, compressed bool, desc protoref
 	if desc == nil {
 		return 0
 	}
-	return identify(codec, desc, p, rn.dict)
+	return identify(codec, desc, p, rn.dict, hint)
 }
 
 func (rn *run) handler() http.Handler {
@@ -752,17 +758,17 @@ func (rn *run) serveBackend(kind string, w http.ResponseWriter, req *http.Reques
 			msg = dec
 		}
 		fo := frameObs{Flags: -1, Decl: len(msg), Actual: len(msg), DeclZ: d.Enc != "", Form: byteForm(msg)}
-		fo.ID = rn.identifyPayload(codec, d.Enc, fo.DeclZ && len(msg) > 0, desc, msg)
+		fo.ID = rn.identifyPayload(codec, d.Enc, fo.DeclZ && len(msg) > 0, desc, msg, firstM(rn.scn.Cl.Frames))
 		d.Frames = append(d.Frames, fo)
 		if len(raw) > 0 {
 			d.Bad = append(d.Bad, "get-with-body")
 		}
 	default:
-		d.Frames, d.Rest = rn.observeFrames(form, codec, d.Enc, desc, raw, 0xfe&^0x01)
+		d.Frames, d.Rest = rn.observeFrames(form, codec, d.Enc, desc, raw, 0, rn.scn.Cl.Frames)
 		if !formEnveloped(form) && len(raw) == 0 && desc != nil && form != "rest" {
 			// an empty un-enveloped body is the empty message
 			fo := frameObs{Flags: -1, Decl: 0, Actual: 0, Form: "raw"}
-			fo.ID = rn.identifyPayload(codec, "", false, desc, nil)
+			fo.ID = rn.identifyPayload(codec, "", false, desc, nil, firstM(rn.scn.Cl.Frames))
 			d.Frames = append(d.Frames, fo)
 		}
 	}
@@ -806,6 +812,13 @@ func (rn *run) serveBackend(kind string, w http.ResponseWriter, req *http.Reques
 	if hd.Exit == "panic" {
 		panic("scripted backend panic")
 	}
+}
+
+func firstM(fs []frameSpec) int {
+	if len(fs) > 0 {
+		return fs[0].M
+	}
+	return 0
 }
 
 func splitList(vals []string) []string {
@@ -885,7 +898,7 @@ func strictHead(form string, req *http.Request) []string {
 		"grpcweb":        {"Connect-Protocol-Version", "Connect-Content-Encoding", "Connect-Accept-Encoding", "Connect-Timeout-Ms", "Content-Encoding", "X-Server-Timeout"},
 		"connect_stream": {"Grpc-Encoding", "Grpc-Accept-Encoding", "Grpc-Timeout", "Content-Encoding", "X-Server-Timeout", "Te"},
 		"connect_post":   {"Grpc-Encoding", "Grpc-Accept-Encoding", "Grpc-Timeout", "Connect-Content-Encoding", "Connect-Accept-Encoding", "X-Server-Timeout", "Te"},
-		"connect_get":    {"Grpc-Encoding", "Grpc-Accept-Encoding", "Grpc-Timeout", "Connect-Content-Encoding", "Connect-Accept-Encoding", "X-Server-Timeout", "Te", "Content-Encoding"},
+		"connect_get":    {"Grpc-Encoding", "Grpc-Accept-Encoding", "Grpc-Timeout", "Connect-Content-Encoding", "Connect-Accept-Encoding", "X-Server-Timeout", "Te"},
 		"rest":           {"Grpc-Encoding", "Grpc-Accept-Encoding", "Grpc-Timeout", "Connect-Content-Encoding", "Connect-Accept-Encoding", "Connect-Timeout-Ms", "Connect-Protocol-Version", "Te"},
 	}
 	for _, k := range foreign[form] {
@@ -904,7 +917,7 @@ func sameRequest(sent *http.Request, sentBody []byte, got *http.Request, gotBody
 	if sent.URL.String() != got.URL.String() {
 		diff = append(diff, "url")
 	}
-	if sent.Proto != got.Proto || sent.ProtoMajor != got.ProtoMajor || sent.ProtoMinor != got.ProtoMinor {
+	if sent.ProtoMajor != got.ProtoMajor || sent.ProtoMinor != got.ProtoMinor {
 		diff = append(diff, "proto")
 	}
 	if sent.ContentLength != got.ContentLength {
@@ -1353,7 +1366,7 @@ func (rn *run) parseClient(form string, res served) clientObs {
 			statusKeyLeak(meta)
 			statusKeyLeak(h)
 			fo := frameObs{Flags: -1, Decl: len(w.body), Actual: len(w.body), DeclZ: co.Enc != "", Form: byteForm(w.body)}
-			fo.ID = rn.identifyPayload(clientCodec, co.Enc, fo.DeclZ && len(w.body) > 0, desc, w.body)
+			fo.ID = rn.identifyPayload(clientCodec, co.Enc, fo.DeclZ && len(w.body) > 0, desc, w.body, firstM(rn.scn.Hd.Frames))
 			co.Frames = append(co.Frames, fo)
 		} else {
 			end := &endRec{Place: "status", Meta: meta}
@@ -1384,7 +1397,7 @@ func (rn *run) parseClient(form string, res served) clientObs {
 		if co.Enc == "identity" {
 			co.Enc = ""
 		}
-		co.Frames, co.Rest = rn.observeFrames(form, clientCodec, co.Enc, desc, w.body, 0x02)
+		co.Frames, co.Rest = rn.observeFrames(form, clientCodec, co.Enc, desc, w.body, 0x02, rn.scn.Hd.Frames)
 		off := 0
 		frames, _ := splitFrames(w.body)
 		for _, f := range frames {
@@ -1439,7 +1452,7 @@ func (rn *run) parseClient(form string, res served) clientObs {
 		if co.Enc == "identity" {
 			co.Enc = ""
 		}
-		co.Frames, co.Rest = rn.observeFrames(form, clientCodec, co.Enc, desc, w.body, 0x80)
+		co.Frames, co.Rest = rn.observeFrames(form, clientCodec, co.Enc, desc, w.body, 0x80, rn.scn.Hd.Frames)
 		inHeaders := len(h.Values("Grpc-Status")) > 0
 		if inHeaders {
 			co.Ends++
@@ -1451,6 +1464,13 @@ func (rn *run) parseClient(form string, res served) clientObs {
 		if form == "grpc" {
 			if len(res.trailers.Values("Grpc-Status")) > 0 {
 				co.Ends++
+				if inHeaders {
+					co.EndDup = "diff"
+					if equalStrings(res.trailers.Values("Grpc-Status"), h.Values("Grpc-Status")) &&
+						equalStrings(res.trailers.Values("Grpc-Message"), h.Values("Grpc-Message")) {
+						co.EndDup = "same"
+					}
+				}
 				if !inHeaders {
 					end := parseGrpcEnd(cloneHeader(res.trailers), "trailers")
 					co.End.Place = "trailers"
@@ -1547,6 +1567,10 @@ func detailsMatch(got [][2]string, want []*anypb.Any) bool {
 // ---------------------------------------------------------------- run one scenario
 
 func runScenario(scn *scenario, seed int64) observation {
+	if scn.Seed != 0 {
+		seed = scn.Seed
+	}
+	scn.Seed = seed
 	rn := newRun(scn, seed)
 	obs := observation{SID: scn.SID, Ev: "rpc", Scn: scn, Disp: []dispatchObs{}}
 	var unknown http.Handler
